@@ -46,6 +46,8 @@ func Jobs(run *ev.Run, prop string) []Job {
 			q(dkgsys.JF, 3, 1, 0, []int{2}, 1),
 			b(dkgsys.JF, 4, 1, 0, []int{0}, 1, 2),
 			b(dkgsys.JF, 4, 1, 0, []int{3}, 1, 2),
+			// two Byzantine dealers (t = 2): single deviations plus every pair of dealing deviations, one per dealer
+			func() Job { j := b(dkgsys.JF, 5, 2, 0, []int{0, 4}, 1, 2); j.CrossPairs = true; return j }(),
 		}
 	}
 	return []Job{
@@ -66,7 +68,7 @@ func Jobs(run *ev.Run, prop string) []Job {
 		b(dkgsys.JF, 4, 1, 0, []int{0}, 2, 2),
 		b(dkgsys.JF, 4, 1, 0, []int{0}, 1, 3),
 		b(dkgsys.JF, 4, 1, 0, []int{2}, 1, 3),
-		b(dkgsys.JF, 5, 2, 0, []int{0, 4}, 1, 2), // two colluding Byzantine dealers
+		func() Job { j := b(dkgsys.JF, 5, 2, 0, []int{0, 4}, 1, 2); j.CrossPairs = true; return j }(), // two colluding Byzantine dealers
 	}
 }
 
